@@ -25,8 +25,9 @@ Definition repaired : fixes := FX true true true true.
 (* ---------- GraphInline::change_key ------------------------------------------------------- *)
 
 (* `self.is_ref() && self.ref_key().map_or(false, |key| key.eq(target_key))`:
-   the key of an inline link is `Key::name(url)` — the url as the reader left it (one `.md` taken
-   off), NOT resolved against the directory of the note that holds the link *)
+   the key of an inline link is `Key::name(url)` — the url the graph holds IS the key the link names
+   from the directory of the note that holds it (Arena.to_ginline: `Key::from_rel_link_url`; in the
+   pinned tree it was the url as typed, F-C08-rawurl) *)
 Definition link_hits (old url : string) : bool :=
   is_ref_url url && String.eqb (key_name url) old.
 
@@ -98,7 +99,8 @@ Record tnote := TN {
   tn_key : string;
   tn_meta : option string;      (* Graph.metadata *)
   tn_tree : tree;               (* Graph::collect(key): titles refreshed *)
-  tn_tables : list string       (* oracle: text of the note's tables *)
+  tn_tables : list string       (* oracle: text of the note's tables, as they are written where the note is
+                                   exported (the renamed note: in the directory of its new key) *)
 }.
 Definition tlib := list tnote.
 
